@@ -41,6 +41,8 @@ def configs(tier):
     for s in [(2, 1), (2, 2)]:
         out.append(dict(key=f"combined-declared-superset-fixedcoords,sizes={s}", sizes=list(s), dissim="combined-declared", labels="declared-bd", coords="fixed",
                         backend="cbc", cost=80))
+    # units of one annotator may start together (ties on position: the container orders them by end, then label)
+    out.append(dict(key="positional,sizes=(2, 1),labels=mixed,ties-on-start-allowed", sizes=[2, 1], dissim="positional", labels="mixed", backend="cbc", ties=True, cost=400))
     # histories on one continuum object: an earlier computation, then an edit through the public API, then the alignment under test
     for s in [(2, 1), (1, 1, 1)]:
         for warm in ("remove", "add-remove", "other-continuum"):
